@@ -220,7 +220,8 @@ class Engine:
         k = (rule, key)
         if k in self.violations:
             return
-        path = self.path_to(b, st)
+        at = getattr(self, "_at", None)
+        path = self.path_to(at[0], at[1]) if at is not None and at[0] == b else self.path_to(b, st)
         steps = []
         last = None
         for pb in path:
@@ -231,6 +232,12 @@ class Engine:
                 last = tag
         self.violations[k] = {"rule": rule, "key": key, "msg": msg, "where": self.where(b), "entry": self.name,
                               "path": steps[-40:], **extra}
+        # the same defect seen on a continuation that unwinds out of user code is also a panic-safety defect
+        if rule in ("TS-1", "TS-3", "TS-4") and any(f[0] == "unwinding" for f in st.flags):
+            k2 = ("UNW-1", "on-unwind:%s:%s" % (rule, key))
+            if k2 not in self.violations:
+                self.violations[k2] = {"rule": "UNW-1", "key": k2[1], "msg": "on a continuation that unwinds out of user code: " + msg, "where": self.where(b),
+                                       "entry": self.name, "path": steps[-40:], **extra}
 
     # ---------------------------------------------------------- semantics
     def step(self, b, st):
@@ -238,6 +245,7 @@ class Engine:
         blk = self.fn.blocks[b]
         val = dict(st.val)
         cur = st
+        self._at = (b, st)
         for si, s in enumerate(blk["stmts"]):
             if s["k"] == "assign":
                 d = s["dst"]
@@ -336,7 +344,7 @@ class Engine:
         rel = frozenset(r for r in st.rel if keep(r[1]) and keep(r[2]))
         var = frozenset((k, v) for k, v in st.var if keep(k))
         guards = frozenset(g for g in st.guards if keep(g[0]))
-        flags = frozenset(f for f in st.flags if not any(isinstance(x, tuple) and mentions_site(x, site) for x in f[1:]))
+        flags = frozenset(f for f in st.flags if f != ("popne", site) and not any(isinstance(x, tuple) and mentions_site(x, site) for x in f[1:]))
         fresh = frozenset(f for f in st.fresh if f[0] != site)
         if (ss, emp, rel, var, guards, flags, fresh) == (st.ss, st.emp, st.rel, st.var, st.guards, st.flags, st.fresh):
             return st
@@ -381,6 +389,16 @@ class Engine:
             # arbitrary user code: live counts and tables of any box may change; dead stays dead
             ss = frozenset((kb, v) for kb, v in st.ss if v <= DEAD)
             return st.replace(ss=ss, emp=frozenset((kb, v) for kb, v in st.emp if kb[0] == "loc"), fresh=frozenset())
+        if k == "vec" and ev.get("recv") is not None:
+            C = mk_deref(ev.recv)
+            if ev.op in ("push", "insert", "push_within_capacity"):
+                return st.replace(flags=st.flags | {("vecne", C)})
+            if ev.op in ("pop", "remove", "swap_remove", "clear", "truncate", "drain", "split_off", "retain", "dedup"):
+                fl = set(f for f in st.flags if f != ("vecne", C))
+                if ev.op == "pop" and ("vecne", C) in st.flags:
+                    fl.add(("popne", ev.b))
+                return st.replace(flags=frozenset(fl))
+            return st
         if k == "moveout" and ev.field == "links":
             return st.replace(emp=frozenset((kb, v) for kb, v in st.emp if kb != ev.box))
         return st
@@ -434,6 +452,12 @@ class Engine:
         if d[0] == "discr":
             inner = d[1]
             known = st.variant(inner)
+            # Option-valued results of next()/pop(): `otherwise` of a one-armed switch is the other variant
+            if v == "otherwise" and inner[0] == "call" and (inner[2] == "core::iter::Iterator::next" or inner[2].endswith("::pop")):
+                if listed == ["1"]:
+                    v = "0"
+                elif listed == ["0"]:
+                    v = "1"
             if v == "otherwise":
                 if known is not None and known in listed:
                     return None
@@ -456,7 +480,11 @@ class Engine:
         return st
 
     def variant_feasible(self, st, inner, v):
-        """Iterator::next on an iterator over a table known to be empty cannot yield Some."""
+        """Iterator::next on an iterator over a table known to be empty cannot yield Some;
+        Vec::pop on a vector that was pushed to since the last removal cannot yield None."""
+        if inner[0] == "call" and inner[2].startswith("alloc::vec::Vec::<T") and inner[2].endswith("::pop") and v == "0" and inner[3]:
+            if ("popne", inner[1]) in st.flags:
+                return None
         if inner[0] == "call" and inner[2] == "core::iter::Iterator::next" and v == "1":
             root = iter_table(inner[3][0])
             if root is not None and st.empty(root) is True:
@@ -534,6 +562,27 @@ class Engine:
                                 if x2 is not None:
                                     st = x2
                     return st
+            # comparison of an enum discriminant with a constant (derived PartialEq on field-less enums)
+            if op in ("Eq", "Ne") and is_const(y) and x[0] == "discr":
+                inner = x[1]
+                same = (op == "Eq") == truth
+                known = st.variant(inner)
+                if same:
+                    if known is not None:
+                        return st if known == y[1] else None
+                    nst = st.replace(var=st.var | {(inner, y[1])})
+                    for r in self.rules:
+                        h = getattr(r, "on_variant", None)
+                        if h:
+                            x2 = h(self, nst, inner, y[1], b)
+                            if x2 is False:
+                                return None
+                            if x2 is not None:
+                                nst = x2
+                    return nst
+                if known is not None and known == y[1]:
+                    return None
+                return st
             # dangling-sentinel test on a pointer address
             if op in ("Eq", "Ne") and is_const(y, MAX) and x[0] == "cast" and x[1] == "PtrToInt":
                 is_s = (op == "Eq") == truth
@@ -657,7 +706,10 @@ class Engine:
                 nst = self.emit(Ev("store", b, None, place=pe, value=res, line=t.get("line")), nst)
             out.append((t["target"], nst))
         if isinstance(t["unwind"], int):
-            can_unwind = any(ev.kind in ("user", "handle_drop", "indirect", "alloc", "panic", "extcall", "borrow", "tbl") for ev in evs)
+            # unwinding is modelled for user code (the fault set of C11), explicit panics and unknown
+            # foreign calls; allocation failure / capacity overflow inside alloc and hashbrown, and
+            # RefCell borrow panics (excluded by BRW-2), are not part of any property's fault model
+            can_unwind = any(ev.kind in ("user", "handle_drop", "indirect", "panic", "extcall") for ev in evs)
             if can_unwind:
                 if any(ev.kind in ("user", "handle_drop", "indirect") for ev in evs):
                     self.obl("UNW-1", "unwind-edge-of-user-call", b)
@@ -837,18 +889,36 @@ _alloc_cache = {}
 
 
 def alloc_root(e):
-    """Site of the allocation call the pointer expression derives from, if any."""
+    """Site of the allocation call whose result the pointer expression *is* (through value-preserving
+    wrappers: Try::branch / Ok / Continue payloads, casts), if any.  An expression that merely reads
+    something out of an allocated container is not fresh."""
     if e in _alloc_cache:
         return _alloc_cache[e]
-    found = []
-
-    def pred(x):
-        if x[0] == "call" and x[2] in ALLOC_CALLS:
-            found.append(x[1])
-            return True
-        return False
-    mentions(e, pred)
-    r = found[0] if found else None
+    r = None
+    x = e
+    n = 0
+    while isinstance(x, tuple) and n < 12:
+        n += 1
+        k = x[0]
+        if k == "call":
+            if x[2] in ALLOC_CALLS:
+                r = x[1]
+                break
+            if x[2] in ("core::ops::Try::branch", "core::result::Result::<T, E>::unwrap", "core::result::Result::<T, E>::expect",
+                        "core::option::Option::<T>::unwrap", "core::option::Option::<T>::expect") and x[3]:
+                x = x[3][0]
+                continue
+            break
+        if k in ("field", "variant"):
+            # payload projections only (".0" of Ok/Continue/Some), not fields of pointees
+            if k == "field" and x[2] not in ("0", 0):
+                break
+            x = x[1]
+            continue
+        if k == "cast":
+            x = x[2]
+            continue
+        break
     if len(_alloc_cache) < 200000:
         _alloc_cache[e] = r
     return r
